@@ -139,16 +139,16 @@ func init() {
 		if s.Const {
 			return smt.StrLit(strings.ToLower(s.Str))
 		}
-		in.X.noteAssumption("strings.ToLower: uninterpreted non-injective function of the string")
-		return smt.UF("str_tolower", []string{"String"}, &smt.Term{K: smt.KStr}, s)
+		in.X.noteAssumption("strings.ToLower/ToUpper/EqualFold on symbolic strings: SMT-LIB str.to_lower / str.to_upper (ASCII letters; Unicode case folding outside)")
+		return smt.App(smt.KStr, 0, "str.to_lower", s)
 	}
 	models["strings.ToUpper"] = func(in *Interp, fn *ssa.Function, a []Value) Value {
 		s := termArg(in, a[0])
 		if s.Const {
 			return smt.StrLit(strings.ToUpper(s.Str))
 		}
-		in.X.noteAssumption("strings.ToUpper: uninterpreted non-injective function of the string")
-		return smt.UF("str_toupper", []string{"String"}, &smt.Term{K: smt.KStr}, s)
+		in.X.noteAssumption("strings.ToLower/ToUpper/EqualFold on symbolic strings: SMT-LIB str.to_lower / str.to_upper (ASCII letters; Unicode case folding outside)")
+		return smt.App(smt.KStr, 0, "str.to_upper", s)
 	}
 	models["strings.TrimSpace"] = func(in *Interp, fn *ssa.Function, a []Value) Value {
 		s := termArg(in, a[0])
@@ -163,11 +163,8 @@ func init() {
 		if s.Const && t.Const {
 			return smt.Bool(strings.EqualFold(s.Str, t.Str))
 		}
-		in.X.noteAssumption("strings.EqualFold(a,b) = (fold(a) == fold(b)) with fold an uninterpreted non-injective function")
-		f := func(x *smt.Term) *smt.Term {
-			return smt.UF("str_fold", []string{"String"}, &smt.Term{K: smt.KStr}, x)
-		}
-		return smt.Eq(f(s), f(t))
+		in.X.noteAssumption("strings.ToLower/ToUpper/EqualFold on symbolic strings: SMT-LIB str.to_lower / str.to_upper (ASCII letters; Unicode case folding outside)")
+		return smt.Eq(smt.App(smt.KStr, 0, "str.to_lower", s), smt.App(smt.KStr, 0, "str.to_lower", t))
 	}
 	models["strings.Compare"] = func(in *Interp, fn *ssa.Function, a []Value) Value {
 		s, t := termArg(in, a[0]), termArg(in, a[1])
